@@ -31,9 +31,11 @@ def rng(*parts):
 
 
 def digest(obj) -> str:
-    return hashlib.sha1(
-        json.dumps(obj, sort_keys=True, default=repr).encode()
-    ).hexdigest()[:16]
+    try:
+        text = json.dumps(obj, sort_keys=True, default=repr)
+    except TypeError:  # e.g. mappings with keys of mixed types
+        text = json.dumps(jsonable(obj), sort_keys=True, default=repr)
+    return hashlib.sha1(text.encode()).hexdigest()[:16]
 
 
 def jsonable(obj, depth=0):
